@@ -241,7 +241,7 @@ func namespaceIsEqual(a Entry, b Entry) bool {
 		// if schema is nil, we're in a key level in the tree, so search up the chain for
 		// the first ancestor that contains a schema.
 		if schema == nil {
-			ancest, _ := a.GetFirstAncestorWithSchema()
+			ancest, _ := e.GetFirstAncestorWithSchema()
 			schema = ancest.GetSchema()
 		}
 		// add the namespace to the array
